@@ -231,7 +231,8 @@ def check(spec):
                     raise Violation("len-differs", "after copy")
                 flags.add("copy")
             elif k == "oob":
-                j = n + op[1]
+                # beyond either end: n + k, or (odd k) -n - 1 - k
+                j = n + op[1] if op[1] % 2 == 0 else -n - 1 - op[1]
                 try:
                     got = sd[j]
                 except IndexError:
